@@ -25,7 +25,7 @@ PROPS = {
     "C05": dict(tests=[T("TestVerifC05Pipeline", 15000, 200000), T("TestVerifC05Pool", 8000, 100000),
                        T("TestVerifC05Conc", 40, 600, shrinktime="0s", gomaxprocs=[16, 4, 8, 16]),
                        T("TestVerifC05Update", 300, 4000, shrinktime="0s"), T("TestVerifC05Hybrid", 1500, 20000), F("FuzzVerifC05Pipeline")]),
-    "C06": dict(tests=[T("TestVerifC06Seq", 4000, 60000)]),
+    "C06": dict(tests=[T("TestVerifC06Seq", 4000, 60000), T("TestVerifC06API", 400, 5000, pkg=".", q_shards=4)]),
     "C07": dict(tests=[T("TestVerifC07", 30000, 400000), T("TestVerifC07Recover", 1500, 20000), F("FuzzVerifC07")]),
     "C08": dict(tests=[T("TestVerifC08Buffer", 6000, 100000), T("TestVerifC08Store", 150, 1500, shrinktime="0s"),
                        T("TestVerifC08Pool", 4000, 60000), T("TestVerifC08Reads", 3000, 50000),
